@@ -614,6 +614,66 @@ FACT = Harness(
     stubs=STUBS_COMMON,
 )
 
+# ------------------------------------------------------------------------------ J-evaluated
+EVAL_ANNS = [("Optional['T0']", True), ("Union['T0', None]", True), ("Annotated[T0, 'meta']", False), ("T0", False), ("Optional[T0]", True), ("'T0 | None'", True)]
+
+
+def eval_params(tier):
+    return [P("ann", 0, len(EVAL_ANNS) - 1), P("is_async", 0, 1), P("present", 0, 1)]
+
+
+@guard
+def eval_fn(a, tier):
+    """A module WITHOUT `from __future__ import annotations`: annotations are evaluated objects, possibly with a quoted name inside."""
+    from typing import Annotated, Union
+
+    ann, is_async, present = pick(a["ann"], len(EVAL_ANNS)), pick(a["is_async"], 2), pick(a["present"], 2)
+    text, optional = EVAL_ANNS[ann]
+    src = ("async " if is_async else "") + f"def f(x, *, r: {text} = resource()):\n    return (x, r)\n"
+    ns = {"resource": resource, "T0": T0, "Optional": Optional, "Union": Union, "Annotated": Annotated, "__name__": "plain_module"}
+    exec(compile(src, "<module without the annotations future import>", "exec", dont_inherit=True), ns)
+    out = {}
+
+    async def main():
+        injected = inject(ns["f"])
+        async with Context() as ctx:
+            value = Val("the T0")
+            if present:
+                ctx.add_resource(value, types=[T0])
+            try:
+                r = injected(7)
+                r = await r if is_async else r
+                out["got"] = ("ok", r[0], r[1])
+            except Exception as e:
+                out["got"] = ("exc", type(e).__name__)
+            out["exp"] = ("ok", 7, value) if present else (("ok", 7, None) if optional else ("exc", "ResourceNotFound"))
+
+    try:
+        _, exc, _k = run(main)
+    except Exception as e:
+        exc = e
+    summary = {"annotation": text, "function": "async def" if is_async else "def", "resource": "present" if present else "missing"}
+    if exc is not None:
+        return FAIL(f"evaluated:raised:{type(exc).__name__}:{text}", repr(exc), summary)
+    g, e = out["got"], out["exp"]
+    if g[0] != e[0] or (g[0] == "ok" and (g[1] != e[1] or g[2] is not e[2])) or (g[0] == "exc" and g != e):
+        return FAIL(f"evaluated:injected-call-differs-from-the-explicit-lookup:{text}:present={present}", f"got {g!r} expected {e!r}", summary)
+    return OK(summary, True)
+
+
+EVALD = Harness(
+    prop="C19",
+    name="J-evaluated",
+    fn=eval_fn,
+    params=eval_params,
+    cube=lambda tier: 0,
+    title="injected functions defined in a module without the annotations future import (evaluated annotation objects, quoted names inside)",
+    bound_text=lambda tier: "annotation in {" + ", ".join(t for t, _ in EVAL_ANNS) + "} x def / async def x resource present / missing",
+    oracle="the parameter is bound to what the explicit lookup of T0 returns; Optional forms give None when nothing matches, the others raise ResourceNotFound",
+    outside="-",
+    stubs=STUBS_COMMON,
+)
+
 # ------------------------------------------------------------------------------ J-late
 def late_params(tier):
     return [P("is_async", 0, 1), P("nested_fn", 0, 1), P("present", 0, 1), P("optional", 0, 1)]
@@ -750,4 +810,4 @@ COMP = Harness(
     stubs=STUBS_COMMON,
 )
 
-HARNESSES = [H, DECO, RACE, CANCEL, FACT, LATE, COMP]
+HARNESSES = [H, DECO, RACE, CANCEL, FACT, EVALD, LATE, COMP]
